@@ -1602,9 +1602,96 @@ def c16(ctx):
     follows = set(views.site(m, bi) for bi, t in m.calls() if bi in pset and q.names(t)[0] in LINK_FOLLOWING)
     obs.append(Ob("R-PROBE", mkkey("R-PROBE", MAIN, "source-probes", 0, "validation-follows-links"), bool(follows) and k == 0, m.loc(), MAIN,
                   "main validates sources with link-following probes (%d sites, %d lstat sites)" % (len(follows), k)))
+    # several sources and a destination that is not a directory (a file, a FIFO, or *nothing at all*) never reach
+    # the copy: assume `sources.len() >= 2` and `is_dir(dest) == false`, take away the edges those two facts
+    # exclude and the blocks that signal a failure, and the spawn must be unreachable -- whatever else is tested
+    # on the way (`dest.exists() && ..` lets a missing destination through: both sources land in one new file)
+    obs += several_sources_need_directory(fx, m, cfg, prefix, sbs, caps, sigm, DIRQ)
     # same mapping rule in the pre-flight and in the walker
     obs += target_base_agreement(fx)
     ctx.add(obs)
+
+
+def several_sources_need_directory(fx, m, cfg, prefix, sbs, caps, sigm, DIRQ):
+    from cfg import whole_defs
+    pv_ = Prov(m, table={"core::iter::traits::collect::IntoIterator::into_iter": [0], "core::slice::<impl [T]>::iter": [0],
+                         "core::ops::deref::Deref::deref": [0], "alloc::vec::Vec::<T, A>::as_slice": [0],
+                         "core::ops::index::Index::index": [0], "core::iter::traits::iterator::Iterator::next": [0]})
+
+    def about_sources(l):
+        if l is None:
+            return False
+        atoms_, _ff, seen = pv_.origins(l)
+        return bool(seen & caps)
+
+    def chase(l, depth=0):
+        """The defining call (through plain moves) of local l, or None."""
+        if l is None or depth > 6:
+            return None
+        ds = whole_defs(m, l)
+        if len(ds) != 1:
+            return None
+        if ds[0].is_term:
+            return ds[0].node if ds[0].node["k"] == "call" else None
+        rv = ds[0].node["rv"]
+        if rv["k"] in ("use", "cast") and op_local(rv["op"]) is not None and not op_place(rv["op"]).get("p"):
+            return chase(op_local(rv["op"]), depth + 1)
+        return None
+
+    blocked = []
+    used = dict(dir=0, count=0)
+    pset = set(prefix)
+    for u in prefix:
+        t = m.blocks[u]["term"]
+        if t["k"] != "switch" or t.get("op_ty") != "bool" or len(t["targets"]) != 1:
+            continue
+        val, tb = t["targets"][0]
+        false_t, true_t = (tb, t["otherwise"]) if str(val) == "0" else (t["otherwise"], tb)
+        # (1) a directory test of the destination, possibly negated
+        for rd in q.switch_field_reads(m, u):
+            if rd[0] == "call" and rd[1] in DIRQ and rd[3] is not None and rd[3].is_term and rd[3].node.get("args"):
+                a0 = op_local(rd[3].node["args"][0])
+                if a0 is not None and not about_sources(a0):
+                    # the probe answers false: the operand is `false ^ flip`
+                    blocked.append((u, false_t if rd[2] else true_t))
+                    used["dir"] += 1
+            if rd[0] == "call" and rd[1].endswith("::is_empty") and rd[3] is not None and rd[3].is_term and rd[3].node.get("args"):
+                if about_sources(op_local(rd[3].node["args"][0])):
+                    blocked.append((u, false_t if rd[2] else true_t))
+                    used["count"] += 1
+        # (2) a comparison of the number of sources with a constant
+        ol = op_local(t["op"])
+        ds = whole_defs(m, ol) if ol is not None else []
+        if len(ds) == 1 and not ds[0].is_term and ds[0].node["rv"]["k"] == "bin" and ds[0].node["rv"]["op"] in ("Eq", "Ne", "Lt", "Le", "Gt", "Ge"):
+            rv = ds[0].node["rv"]
+            x, kc, op = rv["a"], rv["b"], rv["op"]
+            if "c" in x and "c" not in kc:
+                x, kc = kc, x
+                op = {"Gt": "Lt", "Lt": "Gt", "Ge": "Le", "Le": "Ge"}.get(op, op)
+            if "c" in kc and isinstance(kc["c"].get("v"), int) and not isinstance(kc["c"].get("v"), bool):
+                ct = chase(op_local(x))
+                if ct is not None and (q.names(ct)[0] or q.names(ct)[1] or "").endswith("::len") and ct.get("args") \
+                        and about_sources(op_local(ct["args"][0])):
+                    k = kc["c"]["v"]
+                    # truth of `n op k` for every n >= 2, if it is the same for all of them
+                    truth = {"Eq": (False if k < 2 else None), "Ne": (True if k < 2 else None),
+                             "Gt": (True if k <= 1 else None), "Ge": (True if k <= 2 else None),
+                             "Lt": (False if k <= 2 else None), "Le": (False if k <= 1 else None)}[op]
+                    if truth is not None:
+                        blocked.append((u, false_t if truth else true_t))
+                        used["count"] += 1
+    if not used["dir"] or not used["count"]:
+        # the validation is not written with these tests: nothing is claimed by this rule (the not-a-directory rule
+        # above still requires a refusal that depends on is_dir(dest) == false)
+        return []
+    r = cfg.reach([0], blocked=set(sigm), blocked_edges=blocked)
+    leak = sorted(sb for sb in sbs if sb in r)
+    ok = not leak
+    return [Ob("R-TABLE", mkkey("R-TABLE", MAIN, "XcpError::InvalidDestination", 0, "several-sources-need-directory"), ok, m.loc(), MAIN,
+               "with two or more sources and a destination that is not a directory (missing included) the copy is never "
+               "started: %s (%d directory tests of the destination, %d tests of the number of sources taken into account)" % (
+                   ok, used["dir"], used["count"]),
+               None if ok else dict(spawn_reached=["bb%d" % x for x in leak]))]
 
 
 def target_base_agreement(fx):
